@@ -892,6 +892,17 @@ func lemma_C03_userControlRoundtrip(p *UserControl, rest []byte) bool {
 //@ safe (*WindowAcknowledgementSize).UnmarshalBinary C07
 //@ safe (*SetPeerBandwidth).UnmarshalBinary C07
 //@ safe (*UserControl).UnmarshalBinary C07
+// the command packets built on a name, a transaction id and a command object of any AMF0 kind: a successful decode
+// leaves a packet no longer than its input, so the field that follows is sliced safely
+//@ ensures (*variantCallPacket).UnmarshalBinary C03.variant.size-le-len C07.variant.size-le-len
+func ens_variantUnmarshal(v *variantCallPacket, data []byte, err error) bool { return err != nil || v.Size() <= len(data) }
+
+//@ assigns (*variantCallPacket).UnmarshalBinary v.*, any(amf0.Number), any(amf0.Boolean), any(amf0.String), any(amf0.Object), any(amf0.EcmaArray), any(amf0.StrictArray), any(amf0.objectBase), any(amf0.property)
+//@ safe (*variantCallPacket).UnmarshalBinary C07
+//@ safe (*CallPacket).UnmarshalBinary C07
+//@ safe (*CreateStreamResPacket).UnmarshalBinary C07
+//@ safe (*PublishPacket).UnmarshalBinary C07
+//@ safe (*PlayPacket).UnmarshalBinary C07
 //@ safe (*Protocol).readBasicHeader C07
 //@ safe (*Protocol).readMessageHeader C07
 //@ safe (*Protocol).readMessagePayload C07
